@@ -324,6 +324,7 @@ pub fn field_strategy(g: &GenCfg, ctx: &TyCtx, name: (String, bool)) -> BoxedStr
             flatten: false,
             serialized_as: None,
             layout,
+            type_override: None,
         })
         .boxed()
 }
@@ -549,6 +550,7 @@ pub fn item_strategy(g: &GenCfg, skel: &[Skel], idx: usize) -> BoxedStrategy<Ite
             serialized_as: None,
             mod_path,
             layout,
+            decoy_rename_all_fields: None,
         })
         .boxed()
 }
